@@ -235,6 +235,7 @@ func newWorld(withHost bool) *world {
 		cc := c.CloneWith(w2, c.Request())
 		w.observe(cc, "/cw/{a}", fox.RouteHandler, []string{"a"}, true)
 		cc.Close()
+		w.cloneWithOther(c)
 		w.respond(c)
 	}))
 	must(f.Handle("GET", "/cl/{a}", func(c fox.Context) {
@@ -638,12 +639,38 @@ func newWorldWith(sel func() *world) *world {
 		vs.Step("clonewith")
 		x.observe(cc, "/cw/{a}", fox.RouteHandler, []string{"a"}, true)
 		cc.Close()
+		x.cloneWithOther(c)
 	})
 	reg("/cl/{a}", []string{"a"}, func(x *world, c fox.Context) { x.stashClone(c, c.Clone()) })
 	reg("{h}.host/x/{a}", []string{"h", "a"}, nil)
 	reg("/in/*{w}/end/{a}", []string{"w", "a"}, nil)
 	w.f = f
 	return w
+}
+
+// cloneWithOther hands CloneWith a request that differs from the context's own (another query, another header):
+// the clone must read every request-derived getter from the request it was given.
+func (w *world) cloneWithOther(c fox.Context) {
+	r2 := c.Request().Clone(c.Request().Context())
+	r2.URL.RawQuery = "q=" + w.cur.tok + "-other&only=" + w.cur.tok
+	r2.Header.Set("X-Tok", w.cur.tok+"-other")
+	cc := c.CloneWith(fx.WrapRW(fx.NewRW()), r2)
+	if cc.Request() != r2 {
+		w.bad("CloneWith(w, r2).Request() is not r2")
+	}
+	if g := cc.QueryParam("q"); g != w.cur.tok+"-other" {
+		w.bad("CloneWith(w, r2).QueryParam(q) = %q, want the value of r2 (%q)", g, w.cur.tok+"-other")
+	}
+	if g := cc.QueryParams().Get("only"); g != w.cur.tok {
+		w.bad("CloneWith(w, r2).QueryParams()[only] = %q, want the value of r2", g)
+	}
+	if g := cc.Header("X-Tok"); g != w.cur.tok+"-other" {
+		w.bad("CloneWith(w, r2).Header(X-Tok) = %q, want the value of r2", g)
+	}
+	if c.QueryParam("q") != w.cur.tok || c.QueryParam("only") != "" {
+		w.bad("after CloneWith(w, r2) the parent reads QueryParam(q) = %q, only = %q", c.QueryParam("q"), c.QueryParam("only"))
+	}
+	cc.Close()
 }
 
 func init() {
